@@ -307,6 +307,43 @@ let judge _id (c : cursor) (r : cursor) : bool * string =
     if mst <> st || not (dumps_agree ~approx:false (List.map canon_of_impl dcopy) mdump) then
       disagree "read_pol" ops.site_r "copy-then-load: model and implementation differ";
     (true, "polcopy")
+  end else if kind = "fmt" then begin
+    (* the caller preset the stream's formatting state before writing *)
+    let prec = next_int c in let mask = next_int c in let width = next_int c in let fill = next_int c in
+    let k2 = next c in
+    let preset = Printf.sprintf "stream preset to precision %d, flag mask %d, width %d, fill chr(%d)" prec mask width fill in
+    (match (if at_end r then "" else peek r) with
+     | "CRASH" | "SANITIZER" | "TIMEOUT" | "THROW" ->
+       oracle_fail "failed_load_signals_failure" ("operator>>(" ^ k2 ^ ")") (preset ^ ": the harness did not survive this case: " ^ String.concat " " (rest r))
+     | _ -> ());
+    let ops = build k2 c in
+    expect r "T"; let toks = next_list r next in
+    expect r "X"; let dx = next_list r next in
+    expect r "D"; let dd = next_list r next in
+    expect r "RT"; let rt = next_load r dd in
+    expect r "P"; let pafter = next_int r in
+    (* O: whatever the caller did to the stream, the written text loads back as the identical object *)
+    if rt.st <> St_ok || rt.dump <> dx then begin
+      (* whose fault: if the model's reader recovers X from the written tokens the text is good and the
+         reader refused / altered it; otherwise the writer did not put X on the stream *)
+      let text_good = (let (mst, mdump) = ops.read_m toks in mst = St_ok && dumps_agree ~approx:false mdump ops.xdump) in
+      oracle_fail ops.clause (if text_good then ops.site_r else ops.site_w)
+        (preset ^ (if rt.st <> St_ok then ": reading back the written text failed" else ": object read back differs from the one written")
+         ^ "; text [" ^ String.concat " " toks ^ "]")
+    end;
+    (* C *)
+    let cdx = List.map canon_of_impl dx in
+    if not (dumps_agree ~approx:false cdx ops.xdump) then disagree "dump_X" "harness" ("impl " ^ show_dump cdx ^ " model " ^ show_dump ops.xdump);
+    if pafter <> prec then disagree ("write_" ^ k2) ops.site_w (preset ^ ": the writer left the stream's precision at " ^ string_of_int pafter);
+    (* adjustfield / boolalpha / unitbuf do not change a token; width applies to the first token only
+       and pads it with the fill character *)
+    let plain = (mask land (lnot (32 + 64 + 128 + 512 + 1024 + 2048)) = 0) && (width = 0 || fill = 32) in
+    let mt = ops.write_m () in
+    if plain && mt <> toks then disagree ("write_" ^ k2) ops.site_w (preset ^ ": impl [" ^ String.concat " " toks ^ "] model [" ^ String.concat " " mt ^ "]");
+    let (mst, mdump) = ops.read_m toks in
+    if mst <> rt.st || not (dumps_agree ~approx:ops.approx (List.map canon_of_impl rt.dump) mdump) then
+      disagree ("read_" ^ k2) ops.site_r (preset ^ ": model " ^ status_str mst ^ " impl " ^ status_str rt.st);
+    (List.length toks > 2, "fmt-" ^ k2)
   end else begin
     (* a crash / sanitizer report / hang / escaped exception while loading is itself a violation:
        a failed load must signal the failure, not bring the program down *)
